@@ -123,7 +123,10 @@ def deleteU (H : Bytes → Bytes) (hasDb : Bool) (s : Store) : Nat → WN → Li
                 | .short ck chh cc _ _ =>
                   { node := .short (nb pos :: ck) [] cc true false, change := r.change, td := r.td ++ [h, chh] }
                 | _ => { node := .short [nb pos] [] (ch' pos) true false, change := r.change, td := r.td ++ [h] }
-    | .value h _ w _ => { node := .nil, change := w, td := [h] }
+    | .value h v w d =>
+      -- fix acaed54: a value above the full key depth belongs to a shorter key
+      if key ≠ [] then { node := .value h v w d, err := some .notFound }
+      else { node := .nil, change := w, td := [h] }
     | .nil => { node := .nil, err := some .notFound }
     | .empty => { node := .empty, err := some .notFound }
     | .hashRef h w =>
